@@ -245,6 +245,9 @@ class XarrayMixedDims(Job):
         streams = {"v0": {"qartod": t0}, "v1": {"qartod": t1}}
         if self.order == "v1_first":
             streams = {"v1": streams["v1"], "v0": streams["v0"]}
+        if with_fault:
+            # a stream id that is only the *name of a dimension* (no variable, no coordinate): not a stream of the dataset
+            streams = {"obs": {"qartod": {"spike_test": {"suspect_threshold": 1, "fail_threshold": 4}}}, **streams}
         return {"streams": streams}
 
     def invoke(self, mods, S, K):
@@ -295,6 +298,8 @@ class XarrayMixedDims(Job):
                 TRUE if sorted(hk) == sorted([("v0", "qartod", "needs_depth_test"), ("v0", "qartod", "spike_test"), ("v1", "qartod", "spike_test")]) else FALSE),
                ("the test that needs depth contributes no result for the variable without a depth axis",
                 TRUE if ("v1", "qartod", "needs_depth_test") not in fk else FALSE),
+               ("a stream id that only names a dimension contributes no result",
+                TRUE if not any(k[0] == "obs" for k in fk) else FALSE),
                ("every healthy (stream, test) still has a result", TRUE if all(k in fk for k in hk) else FALSE)]
         for (sid, pkg, t) in hk:
             i = 0
